@@ -119,6 +119,9 @@ func C18_Keys() {
 	case 4: // pending requests of a binding
 		vf.Assert(vf.Implies(bytes.HasPrefix(types.GetActiveRequestKey(n2, p2, h2, r2), types.GetActiveRequestSubspace(n1, p1)), vf.And(sameN, sameP)), "pending-of-binding-scan-exact")
 		vf.Assert(vf.Implies(bytes.Equal(types.GetActiveRequestKey(n1, p1, h1, r1), types.GetActiveRequestKey(n2, p2, h2, r2)), vf.All(sameN, sameP, h1 == h2, bytes.Equal(r1, r2))), "pending-key-injective")
+		// a query may name the zero-length address: its scan finds nothing of any real provider
+		none := sdk.AccAddress{}
+		vf.Assert(!bytes.HasPrefix(types.GetActiveRequestKey(n2, p2, h2, r2), types.GetActiveRequestSubspace(n1, none)), "pending-of-the-empty-address-scan-finds-no-real-provider")
 	case 5: // volumes
 		c1, c2 := sdk.AccAddress(vf.Bytes("c1", 20)), sdk.AccAddress(vf.Bytes("c2", 20))
 		vf.Assert(vf.Implies(bytes.Equal(types.GetRequestVolumeKey(c1, n1, p1), types.GetRequestVolumeKey(c2, n2, p2)), vf.All(c1.Equals(c2), sameN, sameP)), "volume-key-injective")
